@@ -110,24 +110,34 @@ impl NodeHandle {
     ///
     /// Also calls cleanup callbacks and removes context values.
     pub fn dispose_children(self) {
-        // If node is already disposed, do nothing.
-        if self.1.nodes.borrow().get(self.0).is_none() {
-            return;
-        }
-        let cleanup = std::mem::take(&mut self.1.nodes.borrow_mut()[self.0].cleanups);
-        let children = std::mem::take(&mut self.1.nodes.borrow_mut()[self.0].children);
+        // Cleanup callbacks may create new nodes and register new cleanups in this very scope, so
+        // keep going until there is nothing left.
+        loop {
+            let (cleanup, children) = match self.1.nodes.borrow_mut().get_mut(self.0) {
+                Some(this) => (
+                    std::mem::take(&mut this.cleanups),
+                    std::mem::take(&mut this.children),
+                ),
+                // If node is already disposed (possibly by one of its own cleanup callbacks), do
+                // nothing.
+                None => return,
+            };
+            if cleanup.is_empty() && children.is_empty() {
+                break;
+            }
 
-        // Run the cleanup functions in an untracked scope so that we don't track dependencies.
-        untrack_in_scope(
-            move || {
-                for cb in cleanup {
-                    cb();
-                }
-            },
-            self.1,
-        );
-        for child in children {
-            Self(child, self.1).dispose();
+            // Run the cleanup functions in an untracked scope so that we don't track dependencies.
+            untrack_in_scope(
+                move || {
+                    for cb in cleanup {
+                        cb();
+                    }
+                },
+                self.1,
+            );
+            for child in children {
+                Self(child, self.1).dispose();
+            }
         }
 
         // Clear context values. A cleanup callback may have disposed this node already.
